@@ -59,6 +59,13 @@ var c19Vals = []c19Val{
 	{"inloopval", "for i = 1:4 {if i == 1 {X = [i, [i], {\"k\": i}]}}", "[2, [2], {\"k\": 2}]", ""},
 	{"namedfunc", "func X(x) {self}", "x => x", "func zother(x) {self}"}, // same text, another name: self and printing tell them apart
 	{"poszero", "0.0", "1.5", "(-0.0)"},                                                           // -0.0 == 0.0 but 1/X tells them apart
+	// functions that differ only in where one statement ends and the next begins
+	{"fnsep-xor", "x => {y = x + 1; y; ^x}", "x => {y = x + 1; y ^ x}", ""},
+	{"fnsep-minus", "x => {y = 3; y; -x}", "x => {y = 3; y - x}", ""},
+	{"fnsep-index", "x => {y = [x]; y; [0]}", "x => {y = [x]; y[0]}", ""},
+	{"fnsep-call", "x => {y = (z => z + 1); y; (x)}", "x => {y = (z => z + 1); y(x)}", ""},
+	{"fnsep-plus", "x => {y = 1; y; +x}", "x => {y = 1; y + x}", ""},
+	{"fnsep-not", "x => {y = true; y; !x}", "x => {y = true; y != x}", ""},
 	{"closure", "(n => (x => x + n))(1)", "(n => (x => x + n))(2)", "(n => (x => x + n))(3 - 2)"}, // same text, other captured value
 }
 
